@@ -4,10 +4,10 @@
 package hx
 
 import (
-	"sync"
 	"bytes"
 	"fmt"
 	"sort"
+	"sync"
 
 	"github.com/hyperjumptech/grule-rule-engine/ast"
 	"github.com/hyperjumptech/grule-rule-engine/builder"
@@ -63,6 +63,35 @@ func Build(p *Program) (*Built, error) {
 	lib, err := BuildText(p.Text)
 	if err != nil {
 		return nil, fmt.Errorf("build failed: %w\n%s", err, p.Text)
+	}
+	return &Built{Lib: lib, Prog: p}, nil
+}
+
+// BuildSplit builds the program one resource per rule (in declaration order, or reversed): nodes of
+// later rules meet a working memory that already holds - and has indexed - the earlier rules' nodes.
+func BuildSplit(p *Program, st grl.Style, reversed bool) (*Built, error) {
+	lib := ast.NewKnowledgeLibrary()
+	rb := builder.NewRuleBuilder(lib)
+	rules := append([]*grl.Rule{}, p.Rules...)
+	if reversed {
+		for i, j := 0, len(rules)-1; i < j; i, j = i+1, j-1 {
+			rules[i], rules[j] = rules[j], rules[i]
+		}
+	}
+	for _, r := range rules {
+		text := grl.PrintRules([]*grl.Rule{r}, st)
+		var err error
+		func() {
+			defer func() {
+				if rec := recover(); rec != nil {
+					err = fmt.Errorf("builder panic: %v", rec)
+				}
+			}()
+			err = rb.BuildRuleFromResource(KBName, KBVer, pkg.NewBytesResource([]byte(text)))
+		}()
+		if err != nil {
+			return nil, fmt.Errorf("build (one resource per rule) failed at %s: %w", r.Name, err)
+		}
 	}
 	return &Built{Lib: lib, Prog: p}, nil
 }
